@@ -12,6 +12,9 @@ import GormModel.Gen.Misc
 import GormModel.Gen.BindSites
 import GormModel.Model.BindApi
 import GormModel.Gen.BindApi
+import GormModel.Model.BindStr
+import GormModel.Lemmas.BindStr
+import GormModel.Gen.BindStr
 namespace Gorm
 open Gorm.Bind
 
@@ -545,5 +548,126 @@ theorem C01_template_sites :
         ("statement.go:Statement.AddVar", "sql", "vars"), ("statement.go:Statement.AddVar", "sql", "vars"),
         ("statement.go:Statement.BuildCondition", "s", "args"), ("statement.go:Statement.BuildCondition", "s", "args"),
         ("statement.go:Statement.BuildCondition", "s", "args") ] := by decide
+
+/-! ### STRING arguments that are not templates: which strings are VALUES
+
+`Statement.BuildCondition` decides by looking at the text of a string `query` whether it is a primary-key VALUE (bound) or a
+condition TEMPLATE (SQL text by documented design).  Model: `Bind.buildCond` with `Bind.atoi` = strconv.Atoi
+(Model/BindStr.lean; tied by the suites "strkey", "strkey-entry", "atoi" and by the regenerated table `Gen.textTests`). -/
+
+/-- the strings `strconv.Atoi` accepts are EXACTLY the signed decimal integers of the int64 range: optional single `+`/`-`,
+    then one or more ASCII digits (any number of leading zeros), value ≤ 2^63-1 resp. ≤ 2^63 after `-` -/
+theorem C01_key_string_iff (s : List Char) : isKeyString s = true ↔ SignedDecimal s := Bind.isKeyString_iff s
+
+/-- **every string that parses as a signed decimal integer (≤ 18 digits: no range question) is a key string** - unsigned,
+    `+n`, `-n`, with leading zeros; on both paths of Atoi -/
+theorem C01_signed_decimal_is_key (sign ds : List Char) (hs : sign = [] ∨ sign = ['+'] ∨ sign = ['-'])
+    (hne : ds ≠ []) (hd : ds.all isDigit = true) (hlen : ds.length ≤ 18) : isKeyString (sign ++ ds) = true := by
+  simp [isKeyString, Bind.atoi_signed_short sign ds hs hne hd hlen]
+
+/-- a key string at the head of a condition (followed by plain values) is BOUND: the expression built is
+    `IN{PrimaryColumn, [s, args…]}` whose first value is the string itself; no template is made of it -/
+theorem C01_key_string_dispatch {β : Type} (inj : List Char → β) (pk : Val β) (s : List Char) (args : List (Val β))
+    (hk : isKeyString s = true) (hp : args.all plainArg = true) :
+    buildCond inj pk s args = some [.inn false pk (.scalar (inj s) :: args)] := by
+  simp [buildCond, hk, hp]
+
+/-- **a key string given alone** (`First(&m, "-5")`, `Delete(&M{}, "+7")`, `Where("00501")`): the statement binds exactly ONE
+    value, the string itself (verbatim: sign and leading zeros kept), the placeholders are aligned, and the TEXT is the same
+    for every key string (it is the text obtained for the unit payload: no character of the string reaches it) -/
+theorem C01_key_string_bound {β : Type} (d : Dialect) (inj : List Char → β) (t n : List Char) (s : List Char)
+    (hk : isKeyString s = true) :
+    ∃ es, buildCond inj (.column t n [] false) s [] = some es ∧
+      (render d (.whereC es)).vars = [.scalar (inj s)] ∧ Aligned (render d (.whereC es)) ∧
+      concretize d (render d (.whereC es)).segs
+        = concretize d (render d (.whereC [.inn false (.column t n [] false) [.scalar ()]] : Val Unit)).segs := by
+  refine ⟨[.inn false (.column t n [] false) [.scalar (inj s)]], ?_, ?_, ?_, ?_⟩
+  · simp [buildCond, hk, plainArg]
+  · have hwf : WellFormed d (.whereC [.inn false (.column t n [] false) [.scalar (inj s)]] : Val β) := by
+      simp [WellFormed, spec, annot, catSnd, colSp, Sp.cat, Sp.app, Sp.one, Sp.none]
+    rw [C01_expansion d _ hwf]
+    simp [flatten, spec, annot, catSnd, colSp, Sp.cat, Sp.app, Sp.one, Sp.none]
+  · apply C01_aligned
+    simp [WellFormed, spec, annot, catSnd, colSp, Sp.cat, Sp.app, Sp.one, Sp.none]
+  · have h := C01_text_independent (fun _ : β => ()) d (.whereC [.inn false (.column t n [] false) [.scalar (inj s)]])
+    simpa [Val.map, Val.mapL] using h.symm
+
+/-- the other side of the dispatch (documented design): a string Atoi rejects, given without arguments, is a condition
+    TEMPLATE - `clause.Expr{SQL: s}`: its text is written, nothing is bound; the empty string adds no condition -/
+theorem C01_nonkey_string_is_template {β : Type} (inj : List Char → β) (pk : Val β) (s : List Char)
+    (hk : isKeyString s = false) :
+    buildCond inj pk s [] = (if s.isEmpty then some [] else some [.expr s [] false]) := by
+  simp [buildCond, hk, buildCondStr]
+
+/-- what is and what is not a key string (kernel-evaluated): signs, leading zeros, the int64 boundaries; blanks, radix
+    prefixes, exponents, separators, non-ASCII digits, doubled signs, the empty string, a UUID are templates -/
+theorem C01_key_string_examples :
+    (["5", "-5", "+7", "00501", "-0", "+0", "0000000000000000000000005", "9223372036854775807", "-9223372036854775808"].map
+        (fun s => isKeyString s.toList) = [true, true, true, true, true, true, true, true, true]) ∧
+    ([" 5", "5 ", "0x10", "1e3", "1_000", "１２", "+-5", "--5", "", "+", "-", "5.0", "9223372036854775808",
+      "-9223372036854775809", "18446744073709551615", "1b9d6bcd-bbfd-4b2d-9b5d-ab8dfbbd4bed"].map
+        (fun s => isKeyString s.toList) = List.replicate 16 false) := by decide
+
+/-- non-vacuity of `C01_key_string_bound`: `First(&m, "-5")` under `$n` -/
+example :
+    let es : List (Val String) := (buildCond (fun s => String.ofList s) (.column "t".toList "id".toList [] false) "-5".toList []).getD []
+    (String.ofList (concretize .dollar (render .dollar (.whereC es)).segs), (render .dollar (.whereC es)).vars.length)
+      = ("`t`.`id` = $1", 1) := by decide
+
+/-- regenerated fact (extract/gen_c01_str.go → Gen/BindStr.lean): the text tests of Statement.BuildCondition, in source
+    order.  The FIRST one is `strconv.Atoi(s)` failing - the parse function `Bind.atoi` transcribes; the template arms
+    below it test for `?`, `@`, and a blank after trimming (= `Bind.buildCondStr`). -/
+theorem C01_key_parse_function :
+    (Gen.textTests.filter (fun t => t.fn == "Statement.BuildCondition")).map (fun t => (t.calls, t.cond)) =
+      [ (["strconv.Atoi"], "_, err := strconv.Atoi(s); err != nil"),
+        (["strings.Contains"], "len(args) == 0 || (len(args) > 0 && strings.Contains(s, \"?\"))"),
+        (["strings.Contains"], "len(args) > 0 && strings.Contains(s, \"@\")"),
+        (["strings.Contains", "strings.TrimSpace"], "strings.Contains(strings.TrimSpace(s), \" \")") ] := by decide
+
+/-- regenerated fact: EVERY branch condition in package gorm / callbacks / clause that inspects the text of a string
+    (calls into strconv / strings / regexp / unicode), per function: the places where a caller's string is classified as
+    value, name or SQL.  A new or changed text test (another parse function, a trimmed / lower-cased operand, a changed
+    comparison against `len(args)`) changes this table. -/
+theorem C01_text_tests :
+    Gen.textTests.map (fun t => (t.file ++ ":" ++ t.fn, t.calls)) =
+      [ ("association.go:Association.saveAssociation", ["strings.HasPrefix"]),
+        ("association.go:Association.saveAssociation", ["strings.TrimPrefix"]),
+        ("association.go:Association.saveAssociation", ["strings.HasPrefix"]),
+        ("callbacks/associations.go:saveAssociations", ["strings.HasPrefix"]),
+        ("callbacks/create.go:ConvertToCreateValues", ["strings.EqualFold"]),
+        ("callbacks/delete.go:DeleteBeforeAssociations", ["strings.HasPrefix"]),
+        ("chainable_api.go:DB.Table", ["strings.Contains", "strings.Contains"]),
+        ("chainable_api.go:DB.Table", ["regexp.FindStringSubmatch"]),
+        ("chainable_api.go:DB.Table", ["strings.Split"]),
+        ("chainable_api.go:DB.Select", ["strings.Count"]),
+        ("chainable_api.go:DB.Select", ["strings.Count"]),
+        ("chainable_api.go:DB.Omit", ["strings.ContainsRune"]),
+        ("chainable_api.go:DB.Raw", ["strings.Contains"]),
+        ("clause/where.go:NotConditions.Build", ["strings.Contains", "strings.Contains"]),
+        ("clause/where.go:NotConditions.Build", ["strings.Contains", "strings.Contains"]),
+        ("finisher_api.go:DB.Count", ["strings.HasPrefix", "strings.TrimSpace", "strings.ToLower"]),
+        ("finisher_api.go:DB.Count", ["strings.ToUpper"]),
+        ("finisher_api.go:DB.Exec", ["strings.Contains"]),
+        ("statement.go:Statement.AddVar", ["strings.Contains"]),
+        ("statement.go:Statement.BuildCondition", ["strconv.Atoi"]),
+        ("statement.go:Statement.BuildCondition", ["strings.Contains"]),
+        ("statement.go:Statement.BuildCondition", ["strings.Contains"]),
+        ("statement.go:Statement.BuildCondition", ["strings.Contains", "strings.TrimSpace"]),
+        ("statement.go:Statement.ParseWithSpecialTableName", ["strings.Split"]) ] := by decide
+
+/-- regenerated fact: the text tests of the chain methods whose string is a TEMPLATE WITH ARGUMENTS or a name - the exact
+    conditions (`Bind.selectDispatch`, `Bind.tableForm`, `Bind.rawDispatch` transcribe them) -/
+theorem C01_text_tests_chain :
+    (Gen.textTests.filter (fun t => t.file == "chainable_api.go" || t.file == "finisher_api.go")).map (fun t => (t.fn, t.cond)) =
+      [ ("DB.Table", "strings.Contains(name, \" \") || strings.Contains(name, \"`\") || len(args) > 0"),
+        ("DB.Table", "results := tableRegexp.FindStringSubmatch(name); len(results) == 3"),
+        ("DB.Table", "tables := strings.Split(name, \".\"); len(tables) == 2"),
+        ("DB.Select", "strings.Count(v, \"?\") >= len(args) && len(args) > 0"),
+        ("DB.Select", "strings.Count(v, \"@\") > 0 && len(args) > 0"),
+        ("DB.Omit", "len(columns) == 1 && strings.ContainsRune(columns[0], ',')"),
+        ("DB.Raw", "strings.Contains(sql, \"@\")"),
+        ("DB.Count", "!strings.HasPrefix(strings.TrimSpace(strings.ToLower(tx.Statement.Selects[0])), \"count(\")"),
+        ("DB.Count", "len(fields) == 1 || (len(fields) == 3 && (strings.ToUpper(fields[1]) == \"AS\" || fields[1] == \".\"))"),
+        ("DB.Exec", "strings.Contains(sql, \"@\")") ] := by decide
 
 end Gorm
